@@ -7,7 +7,7 @@
    The full re-homing statement is false for pins created by pin-update (finding S10): it is proved for all other
    pins (`_partial`) and refuted by a concrete scenario (`_refuted`). *)
 From V Require Import Base.Common Model.C03_Alloc Model.C03_Check Model.C04_ClusterOps Model.C04_Check Proofs.C04_ClusterOps Proofs.C04_Check
-  Model.C10_Repin Model.C10_Check Proofs.C10_Repin Proofs.C03_Monitor Proofs.C10_Monitor.
+  Model.C10_Repin Model.C10_Check Proofs.C10_Repin Proofs.C03_Monitor Proofs.C10_Monitor Proofs.C10_MonitorC.
 From Coq Require Import Permutation.
 Open Scope Z_scope.
 
@@ -184,3 +184,34 @@ Example c10_monitor_example :
   NoDup (map mpeer ms) /\ check_case (cse [x1; x2] []) = [] /\
   check_case (cse [x0; x2] []) = [(7, 1, 0); (7, 2, 0)]%N /\ check_case (cse [x1; x2] [1%N]) = [(7, 1, 0); (7, 2, 0)]%N.
 Proof. cbv zeta. split; [simpl; repeat constructor; simpl; intuition discriminate|]. repeat split; vm_compute; reflexivity. Qed.
+
+(* ---- completeness of the monitor for the model, removal kind (PeerRemove -> vacatePeer) ----
+   vac_case: the record the harness would write for one peer running vacate on the model (kind 2, one step: follower / repinning
+   flags, the CIDs logged in order, the whole pinset after). Hypotheses: the invariant of reachable pinsets (C04), no pin-update pin
+   (finding S10), duplicate-free metadata keys (the comparison of the monitor is not reflexive otherwise), stored pins of the removed
+   peer well typed (pin() checks it before storing), oracles are permutations, one metric per peer. Then check_case raises no code 2:
+   every clause of the monitor is implied by the model - with C03's alloc_model_passes_monitor for every re-homed pin. *)
+Theorem vacate_model_passes_monitor id dmin dmax rv hpt hct members untrusted ms ls st0l f self fol norep ord lord :
+  inv (of_list st0l) -> meta_ok (of_list st0l) -> no_update (of_list st0l) -> typed_ok f (of_list st0l) ->
+  list_oracle lord -> map_oracle ord -> NoDup (map mpeer ms) ->
+  forall t, ~ In (id, 2%N, t) (check_case (vac_case id dmin dmax rv hpt hct members untrusted ms ls st0l f self fol norep ord lord)).
+Proof. exact (vacate_model_passes_monitor_l id dmin dmax rv hpt hct members untrusted ms ls st0l f self fol norep ord lord). Qed.
+Print Assumptions vacate_model_passes_monitor.
+
+(* non-vacuity: peer 0 is removed; CID 1 (only on 0) is re-homed, CID 2 (on 1, 2) is left alone; the hypotheses hold and the
+   whole check_case of the generated record is empty (code 1 included) *)
+Example c10_vacate_example :
+  let x0 := mk_pin (mk_opts 1 1 0%N 0%N 0%N [] None [(3, 4)]%N None []) 1%N DataT [0%N] (-1) None in
+  let x2 := mk_pin (mk_opts 2 3 0%N 0%N 0%N [] None [] None []) 2%N DataT [1%N; 2%N] (-1) None in
+  let ms := [mk_metric 1 (Some 10%N) 3600 true; mk_metric 2 (Some 20%N) 3600 true] in
+  let st0l := [x0; x2] in
+  inv (of_list st0l) /\ meta_ok (of_list st0l) /\ no_update (of_list st0l) /\ typed_ok 0%N (of_list st0l) /\ NoDup (map mpeer ms) /\
+  check_case (vac_case 7 1 1 false [] [] [0; 1; 2]%N [] ms [] st0l 0%N 1%N false false (fun _ xs => xs) (fun l => l)) = [].
+Proof. cbv zeta. split; [|split; [|split; [|split; [|split; [|vm_compute; reflexivity]]]]].
+  - split; [simpl; repeat constructor; simpl; intuition discriminate|]. intros k p H. simpl in H.
+    destruct (N.eqb_spec k 1) as [->|]; [injection H as <-; repeat split; reflexivity|]. destruct (N.eqb_spec k 2) as [->|]; [injection H as <-; repeat split; reflexivity|discriminate].
+  - intros k p H. simpl in H. destruct (N.eqb_spec k 1) as [->|]; [injection H as <-; simpl; repeat constructor; simpl; tauto|].
+    destruct (N.eqb_spec k 2) as [->|]; [injection H as <-; constructor|discriminate].
+  - intros k p H [u [Hu Hn]]. simpl in H. destruct (N.eqb_spec k 1) as [->|]; [injection H as <-; discriminate|]. destruct (N.eqb_spec k 2) as [->|]; [injection H as <-; discriminate|discriminate].
+  - intros k p H _ _. simpl in H. destruct (N.eqb_spec k 1) as [->|]; [injection H as <-; reflexivity|]. destruct (N.eqb_spec k 2) as [->|]; [injection H as <-; reflexivity|discriminate].
+  - simpl. repeat constructor; simpl; intuition discriminate. Qed.
